@@ -13,5 +13,7 @@ CONSTANTS
   FixNick = TRUE
   FixQC = TRUE
   FixConnect = TRUE
+  FixStale = TRUE
+  MaxReplug = 0
 CHECK_DEADLOCK FALSE
 INVARIANT NoRaise
